@@ -30,12 +30,12 @@ func TestVerif(t *testing.T) {
 		Level: "exploration",
 		Rule: "plain enumeration of three input families, each case run under all 2 x 4 x 16 = 128 configurations: TarReproducible {off,on} on the source file store x intermediate store {memory, OCI layout on tmpfs, remote repository over the in-process registry model, file store} x {PreservePermissions, SkipUnpack, ForceCAS, IgnoreNoName} (all 16) on the second file store. " +
 			"Pipeline: harness writes the tree (explicit chmod, explicit atime/mtime incl. on symlinks) -> Store.Add(name, path != name) -> PackManifest v1.1 -> Tag -> Copy to the intermediate -> Copy (CopyGraph when IgnoreNoName, whose Tag step cannot succeed) into a file store on a fresh directory. " +
-			"Family NAMES: every directory tree with <= 3 entries [thorough 4] below the added directory, nesting depth <= 3, entry kinds {directory (hence empty directory), empty file, 1-byte file, 70KiB+1 file, symlink to a sibling, symlink ../x to an entry of the parent directory, dangling symlink} x name class {ascii, 101-byte, non-ASCII} per entry (files 0644, directories 0755), siblings up to permutation, x name of the added directory {top, nest/top, non-ASCII, 101-byte}. " +
+			"Family NAMES: every directory tree with <= 3 entries [thorough 4] below the added directory, nesting depth <= 3, entry kinds {directory (hence empty directory), empty file, 1-byte file, 70KiB+1 file, symlink to a sibling, symlink ../x to an entry of the parent directory, dangling symlink} x name class {ascii, 101-byte, non-ASCII} per entry (files 0644, directories 0755), siblings up to permutation, x name of the added directory {top, nest/top, non-ASCII, 101-byte} (trees of the maximal size: top only). " +
 			"Family MODES: every tree with <= 3 entries [thorough 4] over {directory 0755|0700|0777, 1-byte file 0644|0600|0755|0700|0444|0666} x mode of the added directory {0755,0700,0777}. " +
 			"Family BLOBS: every ordered selection of <= 3 [thorough 4] distinct items out of 9 added side by side: three files with the same bytes (one under a nested name, different modes), two 70KiB files with the same bytes (one under a 101-byte name), two empty files (one non-ASCII name), two directories with the same content under different names. " +
 			"Oracle (os, crypto/sha256, compress/gzip, archive/tar only): Add's descriptor carries the name, digest/size = sha256/length of the bytes the source store serves, the recorded uncompressed digest = sha256 of the gunzipped bytes, the archive decoded with archive/tar lists exactly the source entries (type, bytes, link target, mode); the restored tree is compared recursively below the added name (paths, types, bytes, link targets, modes masked with the process umask or exact with PreservePermissions; the added directory's own mode only with PreservePermissions; single files' modes and timestamps never); with SkipUnpack the stored file must be the descriptor's bytes; " +
 			"every name must materialise, names sharing bytes included, except that under ForceCAS one name per group of equal bytes suffices; per tree and TarReproducible setting a second copy of the tree with different atime/mtime everywhere is added to a second store: with TarReproducible the descriptors must be deeply equal; " +
-			"for every directory and every unpacking option set a direct Push of the true blob with a well-formed but wrong uncompressed digest (digest of the empty string; the digest of the compressed bytes) must fail. " +
+			"for every directory, TarReproducible setting and PreservePermissions setting a direct Push of the true blob with a well-formed but wrong uncompressed digest (digest of the empty string; the digest of the compressed bytes) must fail. " +
 			"evaluations = (case, configuration) pairs judged; non-trivial = distinct cases with at least one entry below the added directory or at least two items",
 		Assumptions: []string{
 			"the process runs as uid 0: permission failures a non-root user would see are unreachable; setuid/setgid/sticky bits are outside the alphabet",
@@ -141,7 +141,11 @@ func enumerate(family string, th bool, yield func(idx int, cs func() caseSpec)) 
 		}
 		codes := codesNames()
 		genTrees(n, codes, func(g []gent) {
-			for _, top := range topNames {
+			tops := topNames
+			if len(g) == n {
+				tops = topNames[:1] // the largest trees only under the plain name
+			}
+			for _, top := range tops {
 				top := top
 				yield(idx, func() caseSpec { return caseSpec{family, []item{buildItem(top, 0o755, g, codes)}} })
 				idx++
@@ -206,7 +210,7 @@ func jobs(tier string) []driver.Job {
 	for _, f := range []struct {
 		name string
 		nsh  int
-	}{{"names", 160}, {"modes", 32}, {"blobs", 32}} {
+	}{{"blobs", 32}, {"modes", 32}, {"names", 160}} {
 		for sh := 0; sh < f.nsh; sh++ {
 			fam, sh, nsh := f.name, sh, f.nsh
 			name := fmt.Sprintf("%s/shard%d.%d", fam, sh, nsh)
@@ -480,7 +484,7 @@ func (r *run) evalSource(tr bool) {
 			continue
 		}
 		for _, o := range allDstOpts() {
-			if o.skip {
+			if o.skip || o.cas || o.ign {
 				continue
 			}
 			for _, v := range []struct{ name, val string }{
